@@ -10,38 +10,52 @@ From IL Require Export Model.Value Model.Mat.
 Open Scope N_scope.
 
 Definition sid := N.
+Definition kgid := N.
 Inductive coltype := CInt | CStr | CAny.
 
 Record sess := mkSess {
   sfacts : db;                 (* Session.ephemeral_facts *)
-  srules : list clause         (* Session.ephemeral_rules / ephemeral_rule_texts *)
+  srules : list clause;        (* Session.ephemeral_rules / ephemeral_rule_texts (kept in step) *)
+  skg : kgid                   (* Session.knowledge_graph *)
 }.
-Definition empty_sess : sess := mkSess [] [].
+(* sessions are created bound to knowledge graph 0 *)
+Definition empty_sess : sess := mkSess [] [] 0.
 
-Record hst := mkH {
+(* the persistent state of one knowledge graph *)
+Record kgst := mkKg {
   pfacts : db;                               (* KnowledgeGraph.engine.input_tuples *)
   pcat : catalog;                            (* KnowledgeGraph.rule_catalog *)
-  schemas : list (name * list coltype);      (* KnowledgeGraph.schema_catalog.session: ONE map per KG *)
+  schemas : list (name * list coltype)       (* KnowledgeGraph.schema_catalog.session: ONE map per KG *)
+}.
+Definition empty_kg : kgst := mkKg [] [] [].
+
+Record hst := mkH {
+  kgs : list (kgid * kgst);                  (* StorageEngine.knowledge_graphs *)
   sessions : list (sid * sess)               (* SessionManager.sessions *)
 }.
-Definition hinit : hst := mkH [] [] [] [].
+Definition hinit : hst := mkH [] [].
 
+Definition kg_of (st : hst) (k : kgid) : kgst :=
+  match lookup (kgs st) k with Some x => x | None => empty_kg end.
 Definition sess_of (st : hst) (s : sid) : sess :=
   match lookup (sessions st) s with Some x => x | None => empty_sess end.
 
 Inductive hop :=
-(* persistent operations (issued by any session or by a session-less request) *)
-| PInsert (r : name) (ts : list tuple)            (* `+r[(..),..]` *)
-| PDelete (r : name) (ts : list tuple)            (* `-r(..)` *)
-| PRegister (n : name) (c : clause) (acc : bool)  (* `+n(..) <- body`; acc = the handler accepted it *)
-| PDrop (n : name)                                (* `-n` (drops the rule n) *)
-| PQuery (r : name)                               (* `?r(..)` without a session *)
+(* persistent operations on knowledge graph k (issued by a session bound to k, or by a
+   session-less request naming k) *)
+| PInsert (k : kgid) (r : name) (ts : list tuple)            (* `+r[(..),..]` *)
+| PDelete (k : kgid) (r : name) (ts : list tuple)            (* `-r(..)` *)
+| PRegister (k : kgid) (n : name) (c : clause) (acc : bool)  (* `+n(..) <- body`; acc = accepted *)
+| PDrop (k : kgid) (n : name)                                (* `-n` (drops the rule n) *)
+| PQuery (k : kgid) (r : name)                               (* `?r(..)` without a session *)
 (* session-local operations *)
 | SFact (s : sid) (r : name) (t : tuple)          (* `r(..)` *)
 | SRetract (s : sid) (r : name) (ts : list tuple) (* Handler::session_retract_ephemeral *)
 | SRule (s : sid) (c : clause) (acc : bool)       (* `h(..) <- body`; acc = accepted *)
 | SClear (s : sid)                                (* `.session clear` *)
 | SDropRules (s : sid) (n : name)                 (* `.session drop <name>` *)
+| SDropIdx (s : sid) (i : nat)                    (* `.session drop <i+1>` *)
+| SKgUse (s : sid) (k : kgid)                     (* `.kg use <k>`: SessionManager::switch_kg clears the session *)
 | SQuery (s : sid) (r : name)                     (* `?r(..)` *)
 | SCount (s : sid) (r : name)                     (* one-shot `c(count<V0>) <- r(V0,..)` in the session *)
 | SSchema (s : sid) (r : name) (cols : list coltype).  (* `r(col: type, ..)` transient schema *)
@@ -53,10 +67,13 @@ Definition merge_cat (c : catalog) (rules : list clause) : catalog :=
 Definition union_db (d : db) (extra : db) : db :=
   fold_left (fun m e => upd m (fst e) (add_new (get m (fst e)) (snd e))) extra d.
 
+(* a query in knowledge graph state g with session facts fs and session rules rs *)
+Definition eval_in (g : kgst) (fs : db) (rs : list clause) (r : name) : list tuple :=
+  let c := merge_cat (pcat g) rs in
+  val (length c) c (union_db (pfacts g) fs) r.
 Definition eval_with (st : hst) (se : sess) (r : name) : list tuple :=
-  let c := merge_cat (pcat st) (srules se) in
-  val (length c) c (union_db (pfacts st) (sfacts se)) r.
-Definition eval_pers (st : hst) (r : name) : list tuple := eval_with st empty_sess r.
+  eval_in (kg_of st (skg se)) (sfacts se) (srules se) r.
+Definition eval_pers (st : hst) (k : kgid) (r : name) : list tuple := eval_in (kg_of st k) [] [] r.
 
 Definition count_row (a : list tuple) : list tuple :=
   match a with [] => [] | _ => [[VI64 (Z.of_nat (length a))]] end.
@@ -76,50 +93,70 @@ Fixpoint tuple_has (cols : list coltype) (t : tuple) : bool :=
   | c :: cs, v :: vs => value_has c v && tuple_has cs vs
   | _, _ => false
   end.
-Definition schema_ok (st : hst) (r : name) (ts : list tuple) : bool :=
-  match lookup (schemas st) r with
+Definition schema_ok (g : kgst) (r : name) (ts : list tuple) : bool :=
+  match lookup (schemas g) r with
   | Some cols => forallb (tuple_has cols) ts
   | None => true
   end.
 
 (* ------------------------------------------------------------------ steps *)
 Definition set_sess (st : hst) (s : sid) (x : sess) : hst :=
-  mkH (pfacts st) (pcat st) (schemas st) (upd (sessions st) s x).
+  mkH (kgs st) (upd (sessions st) s x).
+Definition set_kg (st : hst) (k : kgid) (g : kgst) : hst :=
+  mkH (upd (kgs st) k g) (sessions st).
 
 Definition hstep (st : hst) (o : hop) : hst * option (list tuple) :=
   match o with
-  | PInsert r ts =>
-      if is_head (pcat st) r || negb (schema_ok st r ts) then (st, None)
-      else (mkH (upd (pfacts st) r (add_new (get (pfacts st) r) ts)) (pcat st) (schemas st) (sessions st), None)
-  | PDelete r ts =>
-      (mkH (upd (pfacts st) r (filter (fun t => negb (mem_tuple t ts)) (get (pfacts st) r)))
-           (pcat st) (schemas st) (sessions st), None)
-  | PRegister n c acc =>
-      if acc then (mkH (pfacts st) (upd (pcat st) n (add_clause (clauses_of (pcat st) n) c))
-                       (schemas st) (sessions st), None)
+  | PInsert k r ts =>
+      let g := kg_of st k in
+      if is_head (pcat g) r || negb (schema_ok g r ts) then (st, None)
+      else (set_kg st k (mkKg (upd (pfacts g) r (add_new (get (pfacts g) r) ts)) (pcat g) (schemas g)), None)
+  | PDelete k r ts =>
+      let g := kg_of st k in
+      (set_kg st k (mkKg (upd (pfacts g) r (filter (fun t => negb (mem_tuple t ts)) (get (pfacts g) r)))
+                         (pcat g) (schemas g)), None)
+  | PRegister k n c acc =>
+      let g := kg_of st k in
+      if acc then (set_kg st k (mkKg (pfacts g) (upd (pcat g) n (add_clause (clauses_of (pcat g) n) c)) (schemas g)), None)
       else (st, None)
-  | PDrop n => (mkH (pfacts st) (del (pcat st) n) (schemas st) (sessions st), None)
-  | PQuery r => (st, Some (eval_pers st r))
+  | PDrop k n =>
+      let g := kg_of st k in
+      (set_kg st k (mkKg (pfacts g) (del (pcat g) n) (schemas g)), None)
+  | PQuery k r => (st, Some (eval_pers st k r))
   | SFact s r t =>
       let se := sess_of st s in
-      (set_sess st s (mkSess (upd (sfacts se) r (add_new (get (sfacts se) r) [t])) (srules se)), None)
+      (set_sess st s (mkSess (upd (sfacts se) r (add_new (get (sfacts se) r) [t])) (srules se) (skg se)), None)
   | SRetract s r ts =>
       let se := sess_of st s in
       (set_sess st s (mkSess (upd (sfacts se) r (filter (fun t => negb (mem_tuple t ts)) (get (sfacts se) r)))
-                             (srules se)), None)
+                             (srules se) (skg se)), None)
   | SRule s c acc =>
       let se := sess_of st s in
-      if acc then (set_sess st s (mkSess (sfacts se) (srules se ++ [c])), None) else (st, None)
-  | SClear s => (set_sess st s empty_sess, None)
+      if acc then (set_sess st s (mkSess (sfacts se) (srules se ++ [c]) (skg se)), None) else (st, None)
+  | SClear s =>
+      (* Session::clear: facts, rules AND the rule texts that are prepended to queries *)
+      let se := sess_of st s in
+      (set_sess st s (mkSess [] [] (skg se)), None)
   | SDropRules s n =>
       let se := sess_of st s in
       (set_sess st s (mkSess (sfacts se)
-                             (filter (fun cl => negb (N.eqb (arel (chead cl)) n)) (srules se))), None)
+                             (filter (fun cl => negb (N.eqb (arel (chead cl)) n)) (srules se)) (skg se)), None)
+  | SDropIdx s i =>
+      let se := sess_of st s in
+      if Nat.ltb i (length (srules se))
+      then (set_sess st s (mkSess (sfacts se) (remove_nth i (srules se)) (skg se)), None)
+      else (st, None)
+  | SKgUse s k =>
+      (* SessionManager::switch_kg: session.clear(); session.knowledge_graph = new *)
+      (set_sess st s (mkSess [] [] k), None)
   | SQuery s r => (st, Some (eval_with st (sess_of st s) r))
   | SCount s r => (st, Some (count_row (eval_with st (sess_of st s) r)))
   | SSchema s r cols =>
-      (* register_or_update_session_schema_in(kg, ..): the declaration lands in the KG-wide map *)
-      (mkH (pfacts st) (pcat st) (upd (schemas st) r cols) (sessions st), None)
+      (* register_or_update_session_schema_in(kg, ..): the declaration lands in the KG-wide map of the
+         session's current knowledge graph *)
+      let k := skg (sess_of st s) in
+      let g := kg_of st k in
+      (set_kg st k (mkKg (pfacts g) (pcat g) (upd (schemas g) r cols)), None)
   end.
 
 Fixpoint htrace (st : hst) (h : list hop) : hst * list (hop * option (list tuple)) :=
@@ -136,7 +173,7 @@ Definition answers (st : hst) (h : list hop) : list (hop * option (list tuple)) 
 (* ------------------------------------------------------------------ classification of steps *)
 Definition owner (o : hop) : option sid :=
   match o with
-  | SFact s _ _ | SRetract s _ _ | SRule s _ _ | SClear s | SDropRules s _
+  | SFact s _ _ | SRetract s _ _ | SRule s _ _ | SClear s | SDropRules s _ | SDropIdx s _ | SKgUse s _
   | SQuery s _ | SCount s _ | SSchema s _ _ => Some s
   | _ => None
   end.
